@@ -34,6 +34,66 @@ Proof. induction x as [|c r IH]; cbn; [reflexivity|]. destruct (N.eqb_spec c 10)
 Lemma indented_block_nil : forall x, indented_block x [] = 10%N :: x ++ [10%N].
 Proof. intros x. unfold indented_block. cbn [app]. now rewrite replace_nl_nil. Qed.
 
+(** ** [strip()] and the indented block keep a substring that has no blank at
+    its ends and no newline inside *)
+Definition solid (w : str) : bool :=
+  match w with a :: _ => negb (is_space a) | [] => false end
+  && match rev w with b :: _ => negb (is_space b) | [] => false end
+  && negb (mem_c 10 w).
+
+Lemma strip_left_app : forall f u a r, f a = false ->
+  strip_left f (u ++ a :: r) = strip_left f u ++ a :: r.
+Proof.
+  intros f u a r Ha. induction u as [|c u IH]; cbn [app strip_left]; [now rewrite Ha|].
+  destruct (f c); [exact IH | reflexivity].
+Qed.
+
+Lemma infix_strip_left : forall f w x, match w with a :: _ => f a = false | [] => False end ->
+  infix w x -> infix w (strip_left f x).
+Proof.
+  intros f w x Hw (u & v & ->). destruct w as [|a w']; [contradiction|].
+  cbn [app]. rewrite strip_left_app by exact Hw. exists (strip_left f u), v. reflexivity.
+Qed.
+
+Lemma infix_rev : forall w x, infix w x -> infix (rev w) (rev x).
+Proof.
+  intros w x (u & v & ->). exists (rev v), (rev u). now rewrite !rev_app_distr, <- app_assoc.
+Qed.
+
+Lemma infix_strip : forall w x, solid w = true -> infix w x -> infix w (py_strip x).
+Proof.
+  intros w x Hs Hi. unfold solid in Hs. apply andb_prop in Hs. destruct Hs as [Hs _].
+  apply andb_prop in Hs. destruct Hs as [Hf Hl].
+  unfold py_strip, strip, strip_right.
+  rewrite <- (rev_involutive w). apply infix_rev. apply infix_strip_left.
+  - destruct (rev w) as [|b r]; [discriminate|]. now apply negb_true_iff in Hl.
+  - apply infix_rev. apply infix_strip_left; [|exact Hi].
+    destruct w as [|a r]; [discriminate|]. now apply negb_true_iff in Hf.
+Qed.
+
+Lemma replace_nl_app : forall a b ind, replace_nl (a ++ b) ind = replace_nl a ind ++ replace_nl b ind.
+Proof.
+  intros a b ind. induction a as [|c a IH]; [reflexivity|]. cbn [app replace_nl].
+  destruct (N.eqb c 10); cbn [app]; rewrite IH; [|reflexivity]. now rewrite <- app_assoc.
+Qed.
+Lemma replace_nl_no_nl : forall w ind, mem_c 10 w = false -> replace_nl w ind = w.
+Proof.
+  intros w ind. unfold mem_c. induction w as [|c w IH]; [reflexivity|]. cbn [existsb replace_nl].
+  intros H. apply orb_false_iff in H. destruct H as [Hc Hw]. rewrite N.eqb_sym in Hc. rewrite Hc.
+  now rewrite IH.
+Qed.
+Lemma infix_replace_nl : forall w x ind, mem_c 10 w = false -> infix w x -> infix w (replace_nl x ind).
+Proof.
+  intros w x ind Hw (u & v & ->). rewrite !replace_nl_app, (replace_nl_no_nl w ind Hw).
+  now exists (replace_nl u ind), (replace_nl v ind).
+Qed.
+Lemma infix_indented_block : forall w x ind, solid w = true -> infix w x -> infix w (indented_block x ind).
+Proof.
+  intros w x ind Hs Hi. unfold indented_block. apply infix_cons, infix_app_l, infix_app_r.
+  apply infix_replace_nl; [|exact Hi]. unfold solid in Hs. apply andb_prop in Hs. destruct Hs as [_ Hn].
+  now apply negb_true_iff in Hn.
+Qed.
+
 (** * Exact text of the filtered node classes *)
 Section Exact.
   Variable src : str.
@@ -210,6 +270,7 @@ Section Exact.
     end.
 
   Section Covered.
+    Variable thru_math : bool.       (* also follow bodies of formulas in the modes that render them *)
     Variable leaf : node -> Prop.
 
     Inductive covered : node -> Prop :=
@@ -222,9 +283,15 @@ Section Exact.
     | cov_macro : forall p e m nm ps sp l x, macro_concat nm = true ->
         In (Some x) l -> covered x -> covered (NMacro p e m nm ps (Some (sp, l)))
     | cov_specials : forall p e m ch sp l x, specials_concat ch = true ->
-        In (Some x) l -> covered x -> covered (NSpecials p e m ch (Some (sp, l))).
+        In (Some x) l -> covered x -> covered (NSpecials p e m ch (Some (sp, l)))
+    | cov_math : forall p e m d dl dr bp be l x, thru_math = true -> math_blind o = false ->
+        In (Some x) l -> covered x -> covered (NMath p e m d dl dr (Some (NList bp be l)))
+    | cov_eqenv : forall p e m nm a bp be l x, thru_math = true -> math_blind o = false ->
+        is_eqenv lt nm = true ->
+        In (Some x) l -> covered x -> covered (NEnv p e m nm a (Some (NList bp be l))).
 
     Variable w : str.
+    Hypothesis Hsolid : thru_math = true -> solid w = true.
     Hypothesis Hleaf : forall x, leaf x -> forall sl st,
       infix w (fst (nt sl st x)) /\ infix w (fst (arg_text_g nt sl st (Some x))).
 
@@ -268,13 +335,29 @@ Section Exact.
       - apply negb_true_iff in H. now rewrite H.
     Qed.
 
+    Lemma math_text_infix : forall b, thru_math = true -> math_blind o = false ->
+      (forall sl st, infix w (fst (body_text_g nt sl st b))) ->
+      forall sl st ie d p e dl dr, infix w (fst (math_text_g src o nt sl st ie d p e dl dr b)).
+    Proof.
+      intros b Htm Hnb Hb sl st ie d p e dl dr. specialize (Hsolid Htm). unfold math_text_g.
+      specialize (Hb (push_eq sl) st). destruct (body_text_g nt (push_eq sl) st b) as [c st1]. cbn [fst] in Hb.
+      apply (infix_strip w c Hsolid) in Hb. unfold math_blind in Hnb.
+      destruct (o_math o); try discriminate; cbn [fst]; destruct (ie || d).
+      - now apply infix_indented_block.
+      - exact Hb.
+      - apply infix_app_l, infix_app_r. now apply infix_indented_block.
+      - apply infix_app_l, infix_app_r. exact Hb.
+    Qed.
+
     Theorem covered_infix : forall n, covered n ->
       (forall sl st, infix w (fst (nt sl st n)))
       /\ (forall sl st, infix w (fst (arg_text_g nt sl st (Some n)))).
     Proof.
       induction 1 as [n Hl | p e l x Hin Hc [IH1 IH2] | p e m dl dr bp be l x Hin Hc [IH1 IH2]
                      | p e m nm a bp be l x Ht Hin Hc [IH1 IH2] | p e m nm ps sp l x Ht Hin Hc [IH1 IH2]
-                     | p e m ch sp l x Ht Hin Hc [IH1 IH2]].
+                     | p e m ch sp l x Ht Hin Hc [IH1 IH2]
+                     | p e m d dl dr bp be l x Htm Hnb Hin Hc [IH1 IH2]
+                     | p e m nm a bp be l x Htm Hnb Hq Hin Hc [IH1 IH2]].
       - split; intros sl st; now apply Hleaf.
       - assert (Hn : forall sl st, infix w (fst (nt sl st (NList p e l)))).
         { intros sl st. unfold nt. rewrite node_text_step. cbn [node_step]. fold nt.
@@ -308,6 +391,16 @@ Section Exact.
           cbn [atexts_g]. assert (Ha := args_infix l x Hin IH2 sl st).
           destruct (args_texts_g nt sl st l) as [ts st1]. exact Ha. }
         split; [exact Hn|]. intros sl st. exact (Hn sl st).
+      - assert (Hn : forall sl st, infix w (fst (nt sl st (NMath p e m d dl dr (Some (NList bp be l)))))).
+        { intros sl st. unfold nt. rewrite node_text_step. cbn [node_step]. fold nt.
+          apply math_text_infix; [exact Htm | exact Hnb |].
+          intros sl' st'. cbn [body_text_g]. now apply (items_infix l x). }
+        split; [exact Hn|]. intros sl st. exact (Hn sl st).
+      - assert (Hn : forall sl st, infix w (fst (nt sl st (NEnv p e m nm a (Some (NList bp be l)))))).
+        { intros sl st. rewrite (eqenv_step nm Hq).
+          apply math_text_infix; [exact Htm | exact Hnb |].
+          intros sl' st'. cbn [body_text_g]. now apply (items_infix l x). }
+        split; [exact Hn|]. intros sl st. exact (Hn sl st).
     Qed.
   End Covered.
 
@@ -315,10 +408,11 @@ Section Exact.
   Definition is_comment_with (c : str) (n : node) : Prop :=
     exists p e m ps, n = NComment p e m c ps.
 
-  Theorem kept_comment_covered : o_keep_comments o = true -> forall c n,
-    covered (is_comment_with c) n -> forall sl st, infix (37%N :: c) (fst (nt sl st n)).
+  Theorem kept_comment_covered : o_keep_comments o = true -> forall tm c n,
+    (tm = true -> solid (37%N :: c) = true) ->
+    covered tm (is_comment_with c) n -> forall sl st, infix (37%N :: c) (fst (nt sl st n)).
   Proof.
-    intros Hk c n Hc. apply (covered_infix (is_comment_with c) (37%N :: c)); [|exact Hc].
+    intros Hk tm c n Hs Hc. apply (covered_infix tm (is_comment_with c) (37%N :: c) Hs); [|exact Hc].
     intros x (p & e & m & ps & ->) sl st.
     assert (H : infix (37%N :: c) (fst (nt sl st (NComment p e m c ps)))).
     { rewrite (comment_text_kept Hk). cbn [fst].
@@ -330,7 +424,7 @@ Section Exact.
     In (Some (NComment p' e' m c ps)) l ->
     forall sl st, infix (37%N :: c) (fst (nt sl st (NList p e l))).
   Proof.
-    intros Hk p e l p' e' m c ps Hin. apply (kept_comment_covered Hk).
+    intros Hk p e l p' e' m c ps Hin. apply (kept_comment_covered Hk false); [discriminate|].
     eapply cov_list; [exact Hin|]. apply cov_leaf. now exists p', e', m, ps.
   Qed.
 
@@ -339,9 +433,9 @@ Section Exact.
 
   (** with [math_mode='verbatim'] the source slice of every covered math node is in the output *)
   Theorem verbatim_math_covered : o_math o = MMVerbatim -> forall p e n,
-    covered (is_math_at p e) n -> forall sl st, infix (slice src p e) (fst (nt sl st n)).
+    covered false (is_math_at p e) n -> forall sl st, infix (slice src p e) (fst (nt sl st n)).
   Proof.
-    intros Hm p e n Hc. apply (covered_infix (is_math_at p e) (slice src p e)); [|exact Hc].
+    intros Hm p e n Hc. apply (covered_infix false (is_math_at p e) (slice src p e)); [discriminate| |exact Hc].
     intros x (m & d & dl & dr & b & ->) sl st.
     assert (H : infix (slice src p e) (fst (nt sl st (NMath p e m d dl dr b)))).
     { rewrite (math_text_verbatim Hm). cbn [fst]. destruct d; [|apply infix_refl].
